@@ -692,6 +692,14 @@ func runC17(tier string, seed int64, outdir string, replay string) error {
 			}
 			return nil
 		}
+		if cl == "key-history" {
+			var kp c17KeyPlan
+			if err := json.Unmarshal(rc.In, &kp); err != nil {
+				return err
+			}
+			c17KeyHistories(w, []c17KeyPlan{kp})
+			return nil
+		}
 		if cl == "e2e-throttle" {
 			var ep c17E2EPlan
 			if err := json.Unmarshal(rc.In, &ep); err != nil {
@@ -722,6 +730,8 @@ func runC17(tier string, seed int64, outdir string, replay string) error {
 		}
 		fplans = append(fplans, c17FirstPlan{N: 0, WindowS: 0, Callers: 8, DeadlineMs: 100}, c17FirstPlan{N: 40, WindowS: 3600, Callers: 16, DeadlineMs: 100})
 		c17FirstThrottle(w, fplans, false)
+		// one key of throttle while the exported package limits are changed at run time
+		c17KeyHistories(w, c17KeyPlans(tier))
 		// the loop goroutine against the setters under load (also before the timing-sensitive part)
 		c17Stress(w, c17StressPlans(tier))
 		if tier == "thorough" {
